@@ -17,6 +17,14 @@ HARNESSES = [
     KH("O6.3/cand", "c06_o3_candidate_item_total_order", "CandidateHeapItem::cmp is a total order consistent with numeric < (NaN, +-0, inf included)", src="ann_backend.rs", functions=FA, bounds="three arbitrary items"),
     KH("O6.3/res", "c06_o3_result_item_total_order", "ResultHeapItem::cmp is a total order consistent with numeric <", src="ann_backend.rs", functions=FA, bounds="three arbitrary items"),
     KH("O6.3/topk", "c06_o3_topk_candidate_total_order", "hot_tier::TopKCandidate::cmp is a total order consistent with numeric <", src="hot_tier.rs", functions=[("hot_tier.rs", "cmp")], bounds="three arbitrary items"),
+    KH("O6.7/cosine", "c06_o7_hot_distance_cosine", "HotTier::cosine_distance_with_cached_norm == 1 - <a,b>/(|a||b|) for every similarity in [-1,1]; 0 / 2 beyond (the clamp only absorbs rounding)", src="hot_tier.rs",
+       functions=[("hot_tier.rs", "cosine_distance_with_cached_norm")], bounds="dimension 2; query lanes: all f32 bit patterns; stored vector (1,0) with cached norms 1; scalar dot kernel", timeout=900),
+    KH("O6.7/inner_product", "c06_o7_hot_distance_inner_product", "HotTier::dot_distance_with_cached_norm == 1 - <a,b>/(|a||b|) for every similarity in [-1,1]; 0 / 2 beyond", src="hot_tier.rs",
+       functions=[("hot_tier.rs", "dot_distance_with_cached_norm")], bounds="dimension 2; query lanes: all f32 bit patterns; stored vector (1,0) with cached norms 1; scalar dot kernel", timeout=900),
+    KH("O6.7/cosine_b2", "c06_o7_hot_distance_cosine_b2", "same for the stored unit vector (0.6, 0.8)", src="hot_tier.rs", functions=[("hot_tier.rs", "cosine_distance_with_cached_norm")],
+       bounds="dimension 2; query lanes: all f32 bit patterns; stored vector (0.6,0.8)", timeout=1500, tier="thorough"),
+    KH("O6.7/inner_product_b2", "c06_o7_hot_distance_inner_product_b2", "same for the stored unit vector (0.6, 0.8)", src="hot_tier.rs", functions=[("hot_tier.rs", "dot_distance_with_cached_norm")],
+       bounds="dimension 2; query lanes: all f32 bit patterns; stored vector (0.6,0.8)", timeout=1500, tier="thorough"),
     KH("O6.4/n3", "c06_o4_search_heap_n3", "SearchHeap<ResultHeapItem>: peek is max after each push; pops non-increasing; multiset preserved", src="ann_backend.rs", functions=FA,
        bounds="1..3 pushes of arbitrary (f32,u32) items then n pops; unwind 5"),
     KH("O6.4/n4", "c06_o4_search_heap_n4", "SearchHeap<ResultHeapItem>: same with up to 4 items", src="ann_backend.rs", functions=FA,
@@ -100,4 +108,4 @@ MOS = [
 def run(tier, seed, notes):
     obls = run_mir_obligations("C06", tier, MOS, notes)
     return obls + run_kani_group("C06", tier, "lib", {"hnsw_backend.rs": "hnsw_backend_proofs.rs", "ann_backend.rs": "ann_backend_proofs.rs", "hot_tier.rs": "hot_tier_proofs.rs", "hnsw_index.rs": "hnsw_index_proofs.rs", "simd.rs": "simd_proofs.rs"},
-                          HARNESSES, jobs=6, notes=notes)
+                          HARNESSES, elide_tracing=("hot_tier.rs",), jobs=6, notes=notes)
